@@ -215,3 +215,40 @@ pub fn tie_bit_values(n: u32, es: u32, depth: u32, scales: std::ops::RangeInclus
     }
     v
 }
+
+/// "Cut x tail" alphabet: for every representable scale, every cut position c inside the fraction (c kept bits), a menu
+/// of kept prefixes (zeros, ones, alternating, two fixed unstructured patterns), *every* pattern of the `tail_bits` bits
+/// directly below the cut, and the remaining low bits all zero / all one; both signs. Whatever a conversion's rounding
+/// position is (an f32's 23 bits, a narrower posit's fraction, an integer's binary point), every combination of the bits
+/// next to it occurs with every scale.
+pub fn cut_tail_alphabet(n: u32, es: u32, tail_bits: u32) -> Vec<u32> {
+    let m: u32 = if n == 32 { u32::MAX } else { (1u32 << n) - 1 };
+    let lim = (n as i32 - 2) * (1 << es);
+    let mut v = vec![];
+    for s in -lim..=lim {
+        let Some(nf) = frac_bits(n, es, s) else { continue };
+        let Some(base) = build(n, es, s, |_| 0) else { continue };
+        for c in 0..nf {
+            let below = nf - c; // bits below the cut
+            let tb = tail_bits.min(below);
+            let rest = below - tb;
+            let full_c = if c == 0 { 0 } else { ((1u64 << c) - 1) as u32 };
+            let mut prefixes = vec![0u32, full_c, 0x5555_5555 & full_c, 0x1234_5679 & full_c, 0x0edc_ba98 & full_c];
+            prefixes.sort();
+            prefixes.dedup();
+            for &p in &prefixes {
+                for t in 0..(1u32 << tb) {
+                    for fill in [0u32, if rest == 0 { 0 } else { ((1u64 << rest) - 1) as u32 }] {
+                        let f = ((p as u64) << below | (t as u64) << rest | fill as u64) as u32;
+                        let x = base | f;
+                        v.push(x);
+                        v.push(x.wrapping_neg() & m);
+                    }
+                }
+            }
+        }
+    }
+    v.sort();
+    v.dedup();
+    v
+}
